@@ -24,7 +24,7 @@ SITES = ["www.google.com", "http://a.net", "foo.com", "www.bbc.org.uk", "x.co.uk
          "mysite.net/"]
 NONBMP = ["\U0001F600", "\U0001F512"]
 AWKWARD = ["İstanbul", "straße", "ǅ", "K"]     # U+0130, ß, U+01C5, U+212A (flagged)
-TRICKY = ["201x", "19a9", "1q2", "qwe", "#1x", "#12", "No.", "i<3", "2019", "1999x", "x2000", "20201", "12019", "1qa", "qaz1",
+TRICKY = ["j\u212al;", "hj\u212al;2019", "8i\u212a,", "\u212al;'", "201x", "19a9", "1q2", "qwe", "#1x", "#12", "No.", "i<3", "2019", "1999x", "x2000", "20201", "12019", "1qa", "qaz1",
           "1qaz1", "asdf", "a.b", "@.com", "x@y", ".com", "www.", "http://", "No.1", "mr.", "*0*", "12", "abcd", "ABCD", "aBcD",
           "zzzzzzzz", "password", "passwords", "wordpass", "й123", "1йцу", "qwer!", "1234", "4321", "tty1", "er5tgb"]
 HOSTILE = [" ", "　", " ", " ", "\u0085", "\u001c", "\u001d", "\u001e", "\u001f", "\u000b", "\u000c",
